@@ -154,3 +154,7 @@ def deps(variant, root, limit=400):
                 if isinstance(a, E):
                     stack.append(a)
     return leaves, strs, callees
+
+
+def is_std_lock(name):
+    return name.startswith("std::sync::") and name.endswith("Mutex::<T>::lock")
